@@ -24,6 +24,7 @@ CONSTANT Tier
 L(txt, lex, n, lang, cfg, arg) == [txt |-> txt, lex |-> lex, n |-> n, lang |-> lang, cfg |-> cfg, arg |-> arg]
 Blank      == L("", "blank", 0, "", "", "")
 Para       == L("Some words", "title", 0, "", "", "Some words")
+ParaU      == L("@P@bung macht", "title", 0, "", "", "@P@bung macht")     \* a paragraph whose first letter is not ASCII ("@P@" is rendered as U-umlaut)
 Header     == L("# A Title", "title", 0, "", "", "A Title")
 Item       == L("- item", "text", 0, "", "", "")
 Tick1      == L("`x` rest", "text", 0, "", "", "")
@@ -63,11 +64,16 @@ RenderDoc(doc) == IF doc = <<>> THEN <<>> ELSE RenderSeg(Head(doc)) \o RenderDoc
    whatever it looks like, is an expectation, except `[n]` which is the exit code. *)
 RECURSIVE ContLen(_, _)
 ContLen(body, i) == IF i <= Len(body) /\ body[i].lex = "gt" THEN 1 + ContLen(body, i + 1) ELSE 0
-HasCmd(body)  == Len(body) >= 1 /\ body[1].lex = "dollar"
-CmdLines(body) == [x \in 1..(1 + ContLen(body, 2)) |-> body[x].arg]
-RestOf(body)  == SubSeq(body, 2 + ContLen(body, 2), Len(body))
-ExpLines(body) == [x \in 1..Len(SelectSeq(RestOf(body), LAMBDA l : l.lex # "code")) |->
-                      SelectSeq(RestOf(body), LAMBDA l : l.lex # "code")[x].txt]
+\* the command is the FIRST `$` line of the block; lines before it (long-standing behaviour: e.g. an empty line a writer
+\* left after the comments) are expectation lines that come first
+CmdIdx(body) == LET S == {x \in 1..Len(body) : body[x].lex = "dollar"} IN
+                IF S = {} THEN 0 ELSE CHOOSE x \in S : \A y \in S : x <= y
+HasCmd(body)  == CmdIdx(body) > 0
+HasPre(body)  == CmdIdx(body) > 1
+CmdLines(body) == [x \in 1..(1 + ContLen(body, CmdIdx(body) + 1)) |-> body[CmdIdx(body) - 1 + x].arg]
+RestOf(body)  == SubSeq(body, CmdIdx(body) + 1 + ContLen(body, CmdIdx(body) + 1), Len(body))
+PreOf(body)   == SubSeq(body, 1, CmdIdx(body) - 1)
+ExpLines(body) == LET e == PreOf(body) \o SelectSeq(RestOf(body), LAMBDA l : l.lex # "code") IN [x \in 1..Len(e) |-> e[x].txt]
 Codes(body)   == SelectSeq(RestOf(body), LAMBDA l : l.lex = "code")
 
 -----------------------------------------------------------------------------
@@ -95,11 +101,11 @@ RefStep(st, s, isFirst, isLast, laterTest) ==
       [] s.k = "scrut" ->
             IF HasCmd(s.lines)
             THEN [st EXCEPT !.ln = @ + len, !.run = <<>>, !.fresh = FALSE, !.title = <<>>,
-                            !.may_err = @ \/ Len(Codes(s.lines)) > 1 \/ ~s.term,
+                            !.may_err = @ \/ Len(Codes(s.lines)) > 1 \/ ~s.term \/ HasPre(s.lines),
                             !.must_err = @ \/ Len(Codes(s.lines)) > 1,
                             !.tests = Append(@, Test(CmdLines(s.lines), ExpLines(s.lines),
                                                      IF Len(Codes(s.lines)) = 1 THEN Codes(s.lines)[1].arg ELSE "",
-                                                     s.cfg, st.ln + 1 + Len(s.com) + 1,
+                                                     s.cfg, st.ln + 1 + Len(s.com) + CmdIdx(s.lines),
                                                      \* acceptable titles: the run joined / its last line; "" too when
                                                      \* no title line was seen since the previous test
                                                      [run |-> st.title, fresh |-> st.fresh]))]
@@ -167,7 +173,7 @@ EndTest ==
     /\ mode = "code" /\ (IF AtEnd THEN TRUE ELSE ClosesFence(Line))
     /\ IF HasCmd(cur)
        THEN /\ tests' = Append(tests, Test(CmdLines(cur), ExpLines(cur),
-                                        IF Len(Codes(cur)) = 1 THEN Codes(cur)[1].arg ELSE "", curcfg, startln,
+                                        IF Len(Codes(cur)) = 1 THEN Codes(cur)[1].arg ELSE "", curcfg, startln + CmdIdx(cur) - 1,
                                         [run |-> title, fresh |-> fresh]))
             /\ err' = (err \/ Len(Codes(cur)) > 1)
             /\ run' = <<>> /\ title' = <<>> /\ fresh' = FALSE
@@ -196,12 +202,13 @@ Bodies == { <<Cmd("c1")>>,
             <<Cmd("c1"), Cmd("x")>>,                       \* `$ x` after the command is output
             <<Cmd("c1"), Plain("out1"), Cont("y")>>,       \* `> y` after output is output
             <<Cmd("c1"), Code("3"), Cont("y")>>,           \* ... also directly after the exit code line
-            <<Cmd("c1"), Plain("[+2]"), Code("3")>>,       \* only unsigned digits in brackets are an exit code
+            <<Cmd("c1"), Plain("[+2]"), Plain("[3] x"), Code("3")>>,
+            <<Blank, Cmd("c1"), Plain("out1")>>,           \* an empty line before the command       \* only unsigned digits in brackets are an exit code
             <<Cmd("c1"), Hash("x"), Blank, Tick1>>,        \* `# x`, an empty line, a backtick line as output
             <<Cmd("c1"), Cont("c2"), Plain("out1 (glob)"), Plain("out2 (?)")>>,
             <<Plain("out only")>>,                        \* no command: error
             <<>> }                                        \* empty block
-ProseLines == {Blank, Para, Header, Item, Tick1, Tick2, Rule}
+ProseLines == {Blank, Para, ParaU, Header, Item, Tick1, Tick2, Rule}
 ProseSegs  == {Prose(l) : l \in ProseLines}
 VerbSegs   == {Verbatim(3, "bash", b, t) : b \in {<<>>, <<Plain("echo")>>, <<Cmd("not a test")>>}, t \in BOOLEAN}
               \cup {Verbatim(4, "markdown", b, t) :
